@@ -13,9 +13,9 @@ Theorem list_index_matches_source (l : list value) (i : Z) :
 Proof.
   unfold src_data_List_Index, list_index. cbv zeta.
   pose proof (go_len_nonneg l) as Hl. change (Z.of_nat (length l)) with (go_len l).
-  destruct (Z_lt_dec i 0) as [Hi|Hi]; [decide_ifs; reflexivity|].
-  destruct (Z_le_dec (go_len l) i) as [Hj|Hj]; [decide_ifs; reflexivity|].
-  decide_ifs. rewrite go_index_in by lia. cbv zeta.
+  destruct (Z_lt_dec i 0) as [Hi|Hi]; [st_decide_ifs; reflexivity|].
+  destruct (Z_le_dec (go_len l) i) as [Hj|Hj]; [st_decide_ifs; reflexivity|].
+  st_decide_ifs. rewrite go_index_in by lia. cbv zeta.
   destruct (nth_error l (Z.to_nat i)) eqn:E2; [reflexivity|].
   apply nth_error_None in E2. unfold go_len in Hj. lia.
 Qed.
